@@ -143,13 +143,16 @@ class PluginExec:
                 res.count('halted' if exp else 'left-running')
 
     def _destroy(self, op, res, n_out):
-        _, addr, thread = op
+        _, addr, thread = op[:3]
+        elsewhere = len(op) > 3 and op[3]
         known = addr in self.open
         if known:
             self.open[addr]['open'] = False
             del self.open[addr]
         r = self.drv.destroy(addr, thread)
-        self.drv.builder.new_connection_at_same_address(addr)
+        # malloc may hand the freed wl_connection's address out again, or another one; the freed wl_display / wl_client address
+        # likewise goes to whichever owner is allocated next
+        (self.drv.builder.new_connection_elsewhere if elsewhere else self.drv.builder.new_connection_at_same_address)(addr)
         out = self._new_out(n_out)
         closed = [l for l in out if session.CLOSED_LINE.match(l)]
         if r:
@@ -341,7 +344,33 @@ def make_machine(col, stage, tier, check_c10, check_c15, weights):
             d = Draw(data)
             addr = d.int(0, 4)
             self.gens.pop(addr, None)
-            self._do(['destroy', addr, d.choice([1, 1, 2])])
+            self._do(['destroy', addr, d.choice([1, 1, 2]), d.chance(0.5)])
+
+        @rule(data=st.data())
+        def many_short_lived_connections(self, data):
+            """a compositor's clients come and go (all at one wl_connection address) while older connections stay open"""
+            if self.ex is None or self.ex.quit or getattr(self, 'bursts', 0) >= 1:
+                return
+            d = Draw(data)
+            if not d.chance(0.25):
+                return
+            self.bursts = 1
+            addr = 4
+            for _ in range(d.int(21, 24)):
+                if self.ex.quit:
+                    return
+                self.gens.pop(addr, None)
+                g = histgen.ConnGen(None, 'server', dict(reuse=0.6, weights=weights))
+                self.gens[addr] = g
+                self.t += 1000
+                m = g.next(d, 'first')
+                m['conn'] = None
+                m['t_us'] = self.t
+                P = histgen.protocols()
+                decl = P[m['iface']].msg(m['name']) if m['iface'] in P else None
+                self._do(['msg', addr, 1, dict(gdbsim.closure_of_message(m, g.side, addr, decl), thread_name='main')])
+                self.gens.pop(addr, None)
+                self._do(['destroy', addr, 1, False])
 
         @rule(data=st.data())
         def command(self, data):
